@@ -844,7 +844,7 @@ impl Sys for LiveSys {
             return out;
         }
         let d = self.inner.digest(&w.w);
-        if !self.done.lock().unwrap().insert(d) {
+        if !self.done.lock().unwrap().insert(d) && !crate::engine::replaying() {
             return out;
         }
         // rebuild a copy of the world and complete it fairly
